@@ -236,13 +236,22 @@ def q_rules(P, E):
                         src = d[1]["rv"]["p"][0]
                 if src is not None:
                     kinds = set()
-                    for d in b.defs.get(src, []):
-                        if d[0] == "assign" and d[1]["rv"]["k"] == "agg" and d[1]["rv"].get("variant") == "None":
-                            kinds.add("none")
-                        elif d[0] == "call" and norm(d[1]["fn"].get("path")) in (DEQUE + "pop_front", DEQUE + "pop_back"):
-                            kinds.add("pop")
-                        else:
-                            kinds.add("other")
+                    seen_l, todo = set(), [src]
+                    while todo:
+                        x = todo.pop()
+                        if x in seen_l:
+                            continue
+                        seen_l.add(x)
+                        for d in b.defs.get(x, []):
+                            if d[0] == "assign" and len(d[1]["lhs"]) == 1 and d[1]["rv"]["k"] == "use" and \
+                                    d[1]["rv"]["op"]["k"] in ("copy", "move") and len(d[1]["rv"]["op"]["p"]) == 1:
+                                todo.append(d[1]["rv"]["op"]["p"][0])      # copy / inlined return value
+                            elif d[0] == "assign" and d[1]["rv"]["k"] == "agg" and d[1]["rv"].get("variant") == "None":
+                                kinds.add("none")
+                            elif d[0] == "call" and norm(d[1]["fn"].get("path")) in (DEQUE + "pop_front", DEQUE + "pop_back"):
+                                kinds.add("pop")
+                            else:
+                                kinds.add("other")
                     ok = kinds == {"none", "pop"}
             if not ok:
                 r.violate(("Q8", b.nid, "loop exit not tied to abort"),
